@@ -59,7 +59,7 @@ impl Prop for Boxes {
     }
     fn rule() -> &'static str {
         "proptest: n>=1 shapes over non-NaN doubles; minima/maxima are planted at generated (shape, part, first/last/middle vertex) \
-         positions with values from {ordinary, +-0, +-inf, f64::MAX/MIN and neighbours}; reference fold with plain < / > per shape and \
+         positions (finalize() also called mid-history, shapes of another type with huge coordinates offered and rejected) with values from {ordinary, +-0, +-inf, f64::MAX/MIN and neighbours}; reference fold with plain < / > per shape and \
          over the sequence, compared numerically with the accessor box, the record box bytes (independent decode) and header bytes \
          36..100 plus ShapeReader::header().bbox; header Z for Z types and multipatch, header M for M/Z types when every measure is real \
          data, 0 for dimensions the type lacks. Non-trivial: >=2 shapes with some extreme not at the first vertex of the first shape, \
@@ -184,7 +184,7 @@ fn boxes_k<K: Kind>(c: &BoxCase, ctx: &mut Ctx) -> Result<(), Fail> {
         }
     }
     // (b) record box bytes, (c) header bytes
-    let (shp, _) = match write_bytes_fins(&shapes, true, c.file.fin, c.file.mid_fins) {
+    let (shp, _) = match write_bytes_hist(&shapes, true, c.file.fin, c.file.mid_fins, c.file.rejects) {
         Ok(x) => x,
         Err(e) => fail!("write-error", "{}", e),
     };
